@@ -144,6 +144,23 @@ func ruleRetryListDedup(c *eng.Ctx) {
 				}
 			}
 			c.Check(okKey, rule, "retry.List:same-set", cb.Pos(), "lookup and insertion use the same set")
+			// a file is identified by its name: a key that includes the size (or anything else a
+			// retried listing may report differently) lets the same file through twice
+			nameF := c.P.Field("internal/backend.FileInfo", "Name")
+			okName := nameF != nil && len(updates) > 0
+			for _, u := range updates {
+				if !eng.LoadsField(u.(*ssa.MapUpdate).Key, nameF) {
+					okName = false
+				}
+			}
+			for _, b := range l.Blocks {
+				for _, in := range b.Instrs {
+					if lk, ok := in.(*ssa.Lookup); ok && lk.CommaOk && !eng.LoadsField(lk.Index, nameF) {
+						okName = false
+					}
+				}
+			}
+			c.Check(okName, rule, "retry.List:set-keyed-by-file-name", cb.Pos(), "the set of reported files is keyed by FileInfo.Name alone")
 		}
 	}
 	if n == 0 {
